@@ -24,6 +24,7 @@ pub mod rscript;
 pub mod c01_reader;
 pub mod c03_acknack;
 pub mod c05_frag;
+pub mod c06_hostile;
 pub mod c10_qos;
 pub mod c14_msg;
 
@@ -143,6 +144,7 @@ pub fn registry() -> Vec<Property> {
   v.push(c01_reader::property());
   v.push(c03_acknack::property());
   v.push(c05_frag::property());
+  v.push(c06_hostile::property());
   v.push(c10_qos::property());
   v.push(c14_msg::property());
   v
